@@ -119,7 +119,8 @@ Definition solo_ok (cs : ccase) : bool :=
   end.
 
 (* the compiled record: what Compile built is what the model runs, before and after the calls
-   (engine_record_fixed: no schedule of any number of runs changes the model's record) *)
+   (Props/C09.v engine_runs_own_their_state: no schedule of any number of runs changes the model's record
+   or its projection crec_proj) *)
 Definition rec_ok (cs : ccase) : bool :=
   match cc_obj cs with
   | None => true
